@@ -249,6 +249,52 @@ fn law_instance(rep: &mut Rng, r: &mut Report, offset: usize) {
     }
 }
 
+/// One stream of uniformly random elements; every prefix of it is a uniformly random set, so the estimate is checked at
+/// a dense ladder of cardinalities (factor 1.04) - in particular across the hand-over between the small-range
+/// correction and the raw estimate, where a sketch with one register still empty can be mis-corrected.
+fn accuracy_stream(rng: &mut Rng, rep: &mut Report, max_n: usize, offset: usize) -> Option<String> {
+    let mut h = Hll8::new();
+    let sub = rng.next_u64();
+    let mut r2 = Rng::new(sub);
+    let mut next_check = 100usize;
+    for n in 1..=max_n {
+        let e = r2.arr32();
+        if h.add_element(&e, offset).is_err() {
+            return None;
+        }
+        if n == next_check {
+            next_check = (next_check as f64 * 1.04) as usize + 1;
+            rep.count("accuracy_ladder_checks");
+            match catch(|| h.estimate_count()) {
+                Ok(est) => {
+                    let err = (est as f64 - n as f64).abs() / n as f64;
+                    rep.set_max("accuracy_max_rel_err_permille", (err * 1000.0) as u64);
+                    if err >= 0.15 {
+                        // where the larger errors occur (evidence only)
+                        let bucket = if n < 200 { "100-199" } else if n < 400 { "200-399" } else if n < 640 { "400-639" } else if n < 1000 { "640-999" } else if n < 2000 { "1000-1999" } else if n < 4000 { "2000-3999" } else { "4000+" };
+                        rep.count(&format!("accuracy_rel_err_ge_15pct_at_n:{bucket}"));
+                        rep.set_max(&format!("accuracy_max_rel_err_permille_at_n:{bucket}"), (err * 1000.0) as u64);
+                    }
+                    if !(err < 0.40) {
+                        // one excursion is not a verdict (the envelope is a probabilistic statement); the caller
+                        // judges the RATE of streams with an excursion
+                        rep.count("accuracy_streams");
+                        rep.count("accuracy_streams_with_an_excursion_beyond_40pct");
+                        return Some(format!("n={n} offset={offset} estimate={est} rel.err={err:.3} subseed={sub}"));
+                    }
+                }
+                Err(p) => {
+                    rep.finding(&format!("estimate-panic@{}:{}", p.location, panic_class(&p.message)), &format!("reachable state after {n} adds: {}", p.message), json!({"kind":"accuracy","n":n,"offset":offset,"subseed":sub}));
+                    return None;
+                }
+            }
+        }
+    }
+    rep.eval(fnv_parts(&[&sub.to_le_bytes(), &(max_n as u64).to_le_bytes(), &[offset as u8]]), true);
+    rep.count("accuracy_streams");
+    None
+}
+
 fn accuracy(rng: &mut Rng, rep: &mut Report, n: usize, offset: usize) {
     let mut h = Hll8::new();
     let mut seedcase = vec![];
@@ -435,6 +481,31 @@ pub fn run(args: &Args) -> Report {
             let offset = if k == 0 { 16 } else { rng.usize_below(24) };
             accuracy(&mut rng, &mut rep, n, offset);
         }
+    }
+    let streams = match (thorough, is_debug_build()) {
+        (true, false) => 20000,
+        (true, true) => 1000,
+        (false, false) => 600,
+        (false, true) => 120,
+    };
+    let mut excursions: Vec<String> = vec![];
+    for k in 0..streams {
+        let offset = if k % 3 == 0 { 16 } else { rng.usize_below(24) };
+        if let Some(x) = accuracy_stream(&mut rng, &mut rep, 9000, offset) {
+            excursions.push(x);
+        }
+    }
+    // "stays within the envelope" is decided as a rate: on the unchanged tree about one stream in 60,000 has a single
+    // check beyond 40% (largest seen: 45% at n=556, right at the hand-over between the two corrections); a defect in
+    // a correction shows up in more than one stream per hundred. Violation: at least 3 streams and more than one per
+    // thousand.
+    let allowed = (streams as usize / 1000).max(2);
+    if excursions.len() > allowed {
+        rep.finding(
+            "estimate-outside-envelope-rate",
+            &format!("{} of {} random streams left the 40% envelope at some cardinality between 100 and 9000 (allowed: {allowed}); first: {}", excursions.len(), streams, excursions.iter().take(3).cloned().collect::<Vec<_>>().join(" | ")),
+            json!({"kind":"accuracy-rate","streams":streams}),
+        );
     }
     rep.sample(json!({"family":"accuracy","n":[100,300,1000,3000,10000,100000],
         "max_rel_err_permille": rep.counter("accuracy_max_rel_err_permille")}));
